@@ -6,7 +6,9 @@ Every theorem below holds for *every* DataFrame state satisfying the clause-orde
 (established for every reachable state by `C01_step`), i.e. after any chain of transformations.
 -/
 import SqlframeModel.Lemmas.C11
+import SqlframeModel.Lemmas.C11Tree
 import SqlframeModel.Props.C01
+import SqlframeModel.Props.C07
 namespace Sqlframe
 open Gen
 
@@ -24,10 +26,27 @@ theorem C11_unique_id (fs : List String) (h : fs.Nodup) : uniqueFieldNames fs = 
 theorem C11_count (d : DF) (h : Inv d) : countModel d = some d.eval.rows.length := by
   simp [countModel, countSelectAppend, countWrapsFirst, wrap_eval d h]
 
+/-- **`limit` consults the LIMIT of the statement's outer SELECT and nothing else** (regenerated decision
+    `Gen.limitLookup`): whatever CTEs the statement carries, `limit(n)` is the `limit` step of the C01 model. -/
+theorem C11_limit_own_block (d : DF) (n : Nat) : d.limit11 n = d.apply (.limit n) := limit11_eq_apply d n
+
 private theorem limit_step (d : DF) (h : Inv d) (k : Nat) :
-    (d.apply (.limit k)).eval = d.eval.limit k ∧ Inv (d.apply (.limit k)) := by
+    (d.limit11 k).eval = d.eval.limit k ∧ Inv (d.limit11 k) := by
+  rw [C11_limit_own_block]
   have := C01_step d (.limit k) h trivial (by simp [Step.isOrderBy]) rfl
   exact ⟨this.1, this.2.1⟩
+
+/-- `limit(n).collect()` returns the first n collected rows — for every n and every reachable state. -/
+theorem C11_limit (d : DF) (h : Inv d) (n : Nat) : limitRows d n = d.eval.rows.take n := by
+  simp [limitRows, (limit_step d h n).1, Table.limit]
+
+/-- an action's LIMIT on an already limited DataFrame: never more rows than the DataFrame holds, never fewer than
+    asked for when it holds them (`limit(k)` then `head(n)` / `show(n)` / `limit(n)` = the first `min n k` rows). -/
+theorem C11_limit_limit (d : DF) (h : Inv d) (k n : Nat) :
+    limitRows (d.limit11 k) n = d.eval.rows.take (min n k) := by
+  obtain ⟨he, hi⟩ := limit_step d h k
+  rw [C11_limit _ hi, he]
+  simp [Table.limit, List.take_take]
 
 /-- `head(n)` / `limit(n).collect()` return the first n collected rows — for every n, 0 included. -/
 theorem C11_head (d : DF) (h : Inv d) (n : Nat) : headRows d (some n) = d.eval.rows.take n := by
@@ -76,12 +95,12 @@ theorem C11_show_partial (d : DF) (h : Inv d) (n : Nat) (hne : H_showNonEmpty d 
     | true =>
       have hw := (wrap_fresh d h).inv
       have hl := limit_step d.wrap hw n
-      refine ⟨(d.wrap.apply (.limit n)).eval, by simp, ?_, ?_⟩
+      refine ⟨(d.wrap.limit11 n).eval, by simp, ?_, ?_⟩
       · rw [hl.1, wrap_eval d h]; rfl
       · rw [hl.1, wrap_eval d h]; rfl
     | false =>
       have hl := limit_step d h n
-      refine ⟨(d.apply (.limit n)).eval, by simp, ?_, ?_⟩
+      refine ⟨(d.limit11 n).eval, by simp, ?_, ?_⟩
       · rw [hl.1]; rfl
       · rw [hl.1]; rfl
   obtain ⟨t, ht, hc, hr⟩ := key
@@ -111,7 +130,8 @@ theorem C11_program (T : Table) (steps : List Step) (hT : T.WF) (hs : StepsWF T 
     let d := (DF.init T).run steps
     let R := specRun T steps
     countModel d = some R.rows.length ∧ isEmptyModel d = R.rows.isEmpty ∧
-    firstRow d = R.rows.head? ∧ headRows d (some n) = R.rows.take n ∧ (showModel d n).2 = R.rows.take n := by
+    firstRow d = R.rows.head? ∧ headRows d (some n) = R.rows.take n ∧ (showModel d n).2 = R.rows.take n ∧
+    limitRows d n = R.rows.take n := by
   intro d R
   have he : d.eval = R := C01_partial T steps hT hs hsc hin
   have hi : Inv d := by
@@ -142,9 +162,98 @@ theorem C11_program (T : Table) (steps : List Step) (hT : T.WF) (hs : StepsWF T 
     have hf := init_fresh T hT
     exact this steps (DF.init T) hf.inv (by rw [fresh_eval _ hf]; exact hs) hsc hin (fun _ => by simp [DF.init])
   rw [← he]
-  exact ⟨C11_count d hi, C11_isEmpty d hi, C11_first d hi, C11_head d hi n, C11_show_rows d hi n⟩
+  exact ⟨C11_count d hi, C11_isEmpty d hi, C11_first d hi, C11_head d hi n, C11_show_rows d hi n, C11_limit d hi n⟩
+
+/-! ### statements that are trees: operands with their own LIMIT / ORDER BY / DISTINCT frozen into CTEs -/
+
+/-- **The actions read the outer SELECT only.**  For every reachable state and *every* list of CTE bodies the
+    statement may carry (LIMITs, ORDER BYs, DISTINCTs of earlier steps or of operands of a union — anything), each
+    action returns what it returns for the same outer block over the same value with no CTE at all. -/
+theorem C11_actions_ignore_ctes (d : DF) (h : Inv d) (ctes : List CteBody) (n : Nat) :
+    let d' : DF := { d with hist := ctes }
+    countModel d' = countModel d ∧ isEmptyModel d' = isEmptyModel d ∧ firstRow d' = firstRow d ∧
+    headRows d' (some n) = headRows d (some n) ∧ limitRows d' n = limitRows d n ∧
+    (showModel d' n).2 = (showModel d n).2 := by
+  intro d'
+  have h' : Inv d' := h
+  have e : d'.eval = d.eval := rfl
+  rw [C11_count d' h', C11_count d h, C11_isEmpty d' h', C11_isEmpty d h, C11_first d' h', C11_first d h,
+    C11_head d' h', C11_head d h, C11_limit d' h', C11_limit d h, C11_show_rows d' h', C11_show_rows d h, e]
+  exact ⟨rfl, rfl, rfl, rfl, rfl, rfl⟩
+
+/-- **C11 over tree programs**: base tables, every C01 step kind anywhere (also `orderBy` + `limit` *inside* an
+    operand), the five set operations and both modes of `unionByName`, nested to any depth, further steps after the
+    combination.  `collect()` is the sequential meaning `Prog.sem`, and every action agrees with it. -/
+theorem C11_tree (env : List Table) (p : Prog) (h : p.WF11 env) (n : Nat) :
+    let d := p.run11 env
+    let R := p.sem env
+    d.eval = R ∧ countModel d = some R.rows.length ∧ isEmptyModel d = R.rows.isEmpty ∧
+    firstRow d = R.rows.head? ∧ headRows d (some n) = R.rows.take n ∧ limitRows d n = R.rows.take n ∧
+    (showModel d n).2 = R.rows.take n := by
+  intro d R
+  obtain ⟨hi, he, _⟩ := tree_run env p h
+  have he' : d.eval = R := he
+  rw [← he']
+  exact ⟨rfl, C11_count d hi, C11_isEmpty d hi, C11_first d hi, C11_head d hi n, C11_limit d hi n, C11_show_rows d hi n⟩
+
+/-- C07's programs (set operations with where / select / distinct steps) are tree programs, and their sequential
+    meaning is PySpark's bag -/
+theorem C11_sem_bag (env : List Table) : ∀ p : Prog, p.WF env → p.WF11 env ∧ BagEq (p.sem env) (p.spec env)
+  | .base i, h => ⟨h, rfl, List.Perm.refl _⟩
+  | .step p s, h => by
+    obtain ⟨hw, hb⟩ := C11_sem_bag env p h.1
+    refine ⟨⟨hw, by rw [hb.1]; exact h.2.2, fun ho => ?_⟩, specStep_bag _ _ hb s h.2.1⟩
+    have := h.2.1; cases s <;> simp_all [Step.isBagStep, Step.isOrderBy]
+  | .setop m l r, h => by
+    obtain ⟨hwl, hbl⟩ := C11_sem_bag env l h.1
+    obtain ⟨hwr, hbr⟩ := C11_sem_bag env r h.2.1
+    exact ⟨⟨hwl, hwr, by rw [hbl.1, hbr.1]; exact h.2.2⟩,
+      (C07_flags_bag m (l.sem env) (r.sem env)).trans (setSpecTable_bag m hbl hbr)⟩
+  | .byName am l r, h => by
+    obtain ⟨hwl, hbl⟩ := C11_sem_bag env l h.1
+    obtain ⟨hwr, hbr⟩ := C11_sem_bag env r h.2.1
+    exact ⟨⟨hwl, hwr, by rw [hbl.1, hbr.1]; exact h.2.2⟩, byNameSpec_bag am hbl hbr⟩
+
+/-- … so on those programs the actions agree with **PySpark's** result (a bag: no order is promised):
+    `count()` is its size, `isEmpty()` its emptiness, `head(n)` / `limit(n).collect()` / `show(n)` return
+    `min n size` rows, each of which is a row of it. -/
+theorem C11_tree_pyspark (env : List Table) (p : Prog) (h : p.WF env) (n : Nat) :
+    let d := p.run11 env
+    let S := p.spec env
+    countModel d = some S.rows.length ∧ isEmptyModel d = S.rows.isEmpty ∧
+    (headRows d (some n)).length = min n S.rows.length ∧ (∀ r ∈ headRows d (some n), r ∈ S.rows) ∧
+    limitRows d n = headRows d (some n) ∧ (showModel d n).2 = headRows d (some n) := by
+  intro d S
+  obtain ⟨hw, _, hperm⟩ := C11_sem_bag env p h
+  obtain ⟨_, hc, hie, _, hh, hl, hsh⟩ := C11_tree env p hw n
+  have hlen : (p.sem env).rows.length = S.rows.length := hperm.length_eq
+  refine ⟨by rw [hc, hlen], ?_, by rw [hh, List.length_take, hlen], ?_, by rw [hl, hh], by rw [hsh, hh]⟩
+  · rw [hie]
+    cases hs : (p.sem env).rows <;> cases hS : S.rows <;> simp_all
+  · intro r hr
+    rw [hh] at hr
+    exact hperm.mem_iff.mp (List.mem_of_mem_take hr)
+
+/-- the decision matters: the same program under the other lookup rule.  `top1 = t0.orderBy(id desc).limit(1)`,
+    `u = top1.union(t1).orderBy(id)` has 3 rows; `u.limit(3)` keeps 3 when `limit` reads the outer SELECT and 1 when it
+    picks up the LIMIT of `top1`'s CTE. -/
+def cexEnv11 : List Table :=
+  [{ cols := ["id"], rows := [[.int 1], [.int 2], [.int 3]] }, { cols := ["id"], rows := [[.int 10], [.int 11]] }]
+def cexProg11 : Prog :=
+  .step (.setop .union (.step (.step (.base 0) (.orderBy [{ name := "id", desc := true }])) (.limit 1)) (.base 1))
+    (.orderBy [{ name := "id" }])
+
+theorem C11_limit_scope_matters :
+    cexProg11.WF11 cexEnv11 ∧
+    (cexProg11.run11 cexEnv11).eval.rows.length = 3 ∧
+    ((cexProg11.run11 cexEnv11).limitWith .ownBlock 3).eval.rows.length = 3 ∧
+    ((cexProg11.run11 cexEnv11).limitWith .wholeTree 3).eval.rows.length = 1 := by decide
 
 /-! ### non-vacuity and the repaired witness -/
+example : histLimits (cexProg11.run11 cexEnv11).hist = [1] := by decide
+example : foundLimitWith .wholeTree (cexProg11.run11 cexEnv11) = some 1 ∧
+    foundLimitWith .ownBlock (cexProg11.run11 cexEnv11) = none := by decide
+example : (Prog.setop .union (.base 0) (.base 1)).WF cexEnv11 := by decide
 example : uniqueFieldNames ["a_2", "a", "a"] = ["a_2", "a", "a_2_2"] := by decide
 example : uniqueFieldNames ["x", "s", "x", "y"] = ["x", "s", "x_2", "y"] := by decide
 example : let d := (DF.init exTable).run exSteps
